@@ -461,6 +461,9 @@ func rwExec(calls []string, shape string, fault int) ([]rwItem, string) {
 				e = w.SetWriteDeadline(time.Time{})
 			case "FD":
 				e = w.EnableFullDuplex()
+			case "CT":
+				// a Content-Type chosen before the helper runs (what a middleware with a default type does)
+				w.Header().Set("Content-Type", "text/html; charset=utf-8")
 			case "STR":
 				b := pay.take(num(2))
 				before := len(core.body)
@@ -485,13 +488,21 @@ func rwExec(calls []string, shape string, fault int) ([]rwItem, string) {
 			case "BLOB":
 				b := pay.take(num(2))
 				before := len(core.body)
+				fresh := !w.Written()
 				e = c.Blob(num(1), rwBlobCT, b)
 				expected = append(expected, b[:min(len(b), len(core.body)-before)]...)
+				if fresh && core.h.Get("Content-Type") != rwBlobCT {
+					fail(fmt.Sprintf("call %d %s: Blob was given content type %q, the response carries %q", k, call, rwBlobCT, core.h.Get("Content-Type")))
+				}
 			case "STREAM":
 				chunks, all := rwParseChunks(p[2], pay)
 				before := len(core.body)
+				fresh := !w.Written()
 				e = c.Stream(num(1), rwStreamCT, &chunkReader{chunks: chunks, fail: p[3] == "1"})
 				expected = append(expected, all[:min(len(all), len(core.body)-before)]...)
+				if fresh && core.h.Get("Content-Type") != rwStreamCT {
+					fail(fmt.Sprintf("call %d %s: Stream was given content type %q, the response carries %q", k, call, rwStreamCT, core.h.Get("Content-Type")))
+				}
 			case "REDIR":
 				before := len(core.body)
 				e = c.Redirect(num(1), "/t")
@@ -665,7 +676,7 @@ func rwRandCall(r *Rng) string {
 	case 13:
 		return "HJ"
 	case 14:
-		return Pick(r, []string{"PU", "RD", "WD", "FD"})
+		return Pick(r, []string{"PU", "RD", "WD", "FD", "CT", "CT"})
 	case 15:
 		return "STR," + itoa(Pick(r, rwCodes)) + "," + itoa(r.Intn(7))
 	case 16:
